@@ -130,6 +130,14 @@ fn malformed(r: &mut Rng) -> Vec<u8> {
     }
 }
 
+fn sentinel_source(r: &mut Rng) -> Option<std::net::IpAddr> {
+    let list: Vec<serde_json::Value> = serde_json::from_str(include_str!("../../data/sentinel_sources.json")).unwrap_or_default();
+    if list.is_empty() {
+        return None;
+    }
+    list[r.usize_below(list.len())].get("addr").and_then(|a| a.as_str()).and_then(|a| a.parse().ok())
+}
+
 pub fn gen_items(r: &mut Rng, kind: PoolKind, d: usize, di: usize, n: usize, v6: bool, framing: Framing) -> Vec<Item> {
     let mut v = vec![];
     let h = tcp::Host::random(r);
@@ -137,6 +145,9 @@ pub fn gen_items(r: &mut Rng, kind: PoolKind, d: usize, di: usize, n: usize, v6:
         let hostid = (di * 50 + k) as u16;
         let _ = d;
         let c = if v6 { Endpoint::v6(0x300 + hostid, 40000 + hostid) } else { Endpoint::v4(10, 20 + (hostid / 250) as u8, (hostid % 250) as u8, 1 + (hostid % 200) as u8, 40000 + hostid) };
+        // one IPv6 sender in twelve is taken from the corpus of addresses whose TCP-pool hash has an all-one or
+        // all-zero half (data/sentinel_sources.json, found by `vsim sentinel-sources`)
+        let c = if v6 && r.chance(1, 12) { sentinel_source(r).map(|ip| Endpoint { ip, port: 40000 + hostid }).unwrap_or(c) } else { c };
         let s = if v6 { Endpoint::v6(0x10, 443) } else { Endpoint::v4(10, 9, 0, 1, *r.pick(&[80u16, 443, 8080])) };
         if r.chance(1, 7) {
             v.push(Item { frame: malformed(r), role: Role::Malformed, id: String::new() });
@@ -184,6 +195,7 @@ fn check_accounting(cfg: &PoolCfg, dispatchers: &[Vec<Item>], out: &pool::ExecOu
     let mut dropped_ids: Vec<String> = vec![];
     let mut http_syn_queued: BTreeMap<String, bool> = BTreeMap::new();
     let mut per_worker_full = vec![0u64; cfg.workers];
+    let mut drops_by_identity: BTreeMap<usize, u64> = BTreeMap::new();
     let mut http_err_processed = 0u64;
     for (d, items) in dispatchers.iter().enumerate() {
         for (i, it) in items.iter().enumerate() {
@@ -229,6 +241,10 @@ fn check_accounting(cfg: &PoolCfg, dispatchers: &[Vec<Item>], out: &pool::ExecOu
                 dropped += 1;
                 if let Some(w) = w {
                     per_worker_full[w] += 1;
+                    // the frame's identity, by the low half of the pool's own hash of it
+                    if let Some(ident) = pool::worker_of(kind, &it.frame, 1usize << 32) {
+                        *drops_by_identity.entry(ident).or_insert(0) += 1;
+                    }
                 }
                 if matches!(it.role, Role::Syn | Role::Hello | Role::HttpRequest) {
                     dropped_ids.push(it.id.clone());
@@ -306,9 +322,41 @@ fn check_accounting(cfg: &PoolCfg, dispatchers: &[Vec<Item>], out: &pool::ExecOu
     let full_drops = dropped - unhashable;
     match kind {
         PoolKind::Tcp | PoolKind::Tls => {
-            for (w, (_, wd)) in s.workers.iter().enumerate() {
-                if *wd != per_worker_full[w] {
-                    return Err(Violation::new("stats-worker-dropped", key, format!("worker {} dropped counter = {} but {} dispatches to it returned Dropped", w, wd, per_worker_full[w])));
+            // The statement fixes what the worker may depend on (the identity), not the function. The expectation above
+            // uses the mapping the pools have today (hash % workers); when the counters disagree with it they may still
+            // be right for another mapping: they are, if the Dropped outcomes grouped by identity can be dealt out to
+            // the workers so that every counter is met exactly.
+            let strict_ok = s.workers.iter().enumerate().all(|(w, (_, wd))| *wd == per_worker_full[w]);
+            if !strict_ok {
+                let mut groups: Vec<u64> = drops_by_identity.values().cloned().filter(|d| *d > 0).collect();
+                groups.sort_by(|a, b| b.cmp(a));
+                let mut room: Vec<u64> = s.workers.iter().map(|w| w.1).collect();
+                fn deal(groups: &[u64], room: &mut Vec<u64>, budget: &mut u32) -> Option<bool> {
+                    let Some((g, rest)) = groups.split_first() else { return Some(room.iter().all(|r| *r == 0)) };
+                    for w in 0..room.len() {
+                        if room[w] >= *g && (w == 0 || room[w] != room[w - 1]) {
+                            if *budget == 0 {
+                                return None;
+                            }
+                            *budget -= 1;
+                            room[w] -= g;
+                            let r = deal(rest, room, budget);
+                            room[w] += g;
+                            if r != Some(false) {
+                                return r;
+                            }
+                        }
+                    }
+                    Some(false)
+                }
+                let mut budget = 200_000u32;
+                match deal(&groups, &mut room, &mut budget) {
+                    Some(true) => st.probe("per_worker_counters_fit_another_identity_mapping"),
+                    None => st.probe("per_worker_counters_not_decided"),
+                    Some(false) => {
+                        let (w, wd) = s.workers.iter().enumerate().find(|(w, (_, wd))| *wd != per_worker_full[*w]).map(|(w, x)| (w, x.1)).unwrap_or((0, 0));
+                        return Err(Violation::new("stats-worker-dropped", key, format!("worker {} dropped counter = {} but {} dispatches to it returned Dropped (and no assignment of identities to workers explains the per-worker counters {:?})", w, wd, per_worker_full[w], s.workers.iter().map(|x| x.1).collect::<Vec<_>>())));
+                    }
                 }
             }
         }
@@ -585,7 +633,7 @@ impl Prop for C18 {
     fn run(s: &Scn, st: &mut RunStats) -> Result<(), Violation> {
         match &s.mode {
             Mode::Accounting { cfg, dispatchers, schedules, iters, sched, stats_calls, consumer_gone_after, shutdown_after_yields } => {
-                let plan = Arc::new(ExecPlan { via_analyzer: false, cfg: cfg.clone(), dispatchers: dispatchers.iter().map(|d| d.iter().map(|i| i.frame.clone()).collect()).collect(), stats_calls: *stats_calls, wait_for: Some(expected_wait(cfg, dispatchers)), consumer_gone_after: *consumer_gone_after, shutdown_after_yields: *shutdown_after_yields, idle_gap: None, reinit_pool: false });
+                let plan = Arc::new(ExecPlan { via_analyzer: false, cfg: cfg.clone(), dispatchers: dispatchers.iter().map(|d| d.iter().map(|i| i.frame.clone()).collect()).collect(), stats_calls: *stats_calls, wait_for: Some(expected_wait(cfg, dispatchers)), consumer_gone_after: *consumer_gone_after, shutdown_after_yields: *shutdown_after_yields, idle_gap: None, reinit_pool: false, cancel_after: None });
                 st.evals = 0;
                 let mut seen_q = false;
                 let mut seen_d = false;
@@ -899,9 +947,87 @@ pub struct StallScn {
     /// frames handed over while the workers are stalled
     pub n: usize,
     pub schedule: u64,
+    /// sustained mode: the worker runs, one dispatcher hands over `n` frames that each yield exactly one result and
+    /// collects the results as it goes; what the pool holds at any moment (queued and not yet delivered) is bounded
+    /// by queue size + batch size
+    #[serde(default)]
+    pub sustained: bool,
 }
 
 pub struct C11Pool;
+
+/// Sustained load on a running pool: (most frames held by the pool at once, frames queued, results received, error)
+fn run_sustained(s: &StallScn, st: &mut RunStats) -> Result<(), Violation> {
+    type Out = (usize, usize, usize, Option<String>);
+    let slot: Arc<std::sync::Mutex<Out>> = Arc::new(std::sync::Mutex::new((0, 0, 0, None)));
+    let (slot2, s2) = (slot.clone(), s.clone());
+    pool::run_scheduled_steps(s.schedule, Sched::Random, 1, 60_000_000, move || {
+        verif_chan::evlog_reset();
+        verif_chan::reset_ids();
+        let mut o: Out = (0, 0, 0, None);
+        match pool::make_pool_try(&s2.cfg) {
+            Err(e) => o.3 = Some(e),
+            Ok((p, try_recv)) => {
+                let mut drain = |o: &mut Out| loop {
+                    match try_recv() {
+                        Some(Some(_)) => o.2 += 1,
+                        _ => break,
+                    }
+                };
+                for i in 0..s2.n {
+                    let mut f = s2.frame.clone();
+                    // a flow of its own per frame: the TCP source port (Ethernet + option-less IPv4: offset 34)
+                    let port = 1024 + (i % 60000) as u16;
+                    f[34] = (port >> 8) as u8;
+                    f[35] = port as u8;
+                    let mut tries = 0;
+                    while !p.dispatch(f.clone()) && tries < 100_000 {
+                        tries += 1;
+                        drain(&mut o);
+                        shuttle::thread::yield_now();
+                    }
+                    if tries < 100_000 {
+                        o.1 += 1;
+                    }
+                    drain(&mut o);
+                    o.0 = o.0.max(o.1 - o.2);
+                }
+                drop(p);
+                // what is still due arrives once the pool has been released
+                for _ in 0..1_000_000 {
+                    match try_recv() {
+                        Some(Some(_)) => o.2 += 1,
+                        Some(None) => shuttle::thread::yield_now(),
+                        None => break,
+                    }
+                }
+            }
+        }
+        *slot2.lock().unwrap() = o;
+    });
+    let (held, queued, received, err) = slot.lock().unwrap().clone();
+    if let Some(e) = err {
+        return Err(Violation::new("harness-error", "", e));
+    }
+    st.evals = 1;
+    st.packets += s.n as u64;
+    st.fault("sustained_load_results_consumed_as_they_come");
+    st.ev_u64(s.cfg.queue as u64);
+    st.ev_u64(s.cfg.batch as u64);
+    st.ev(s.cfg.kind.name());
+    st.probe_n("most_frames_held_by_a_running_pool", held as u64);
+    let key = format!("{}:sustained", s.cfg.kind.name());
+    if received != queued {
+        return Err(Violation::new("result-count", key, format!("{} frames queued, each yields one result, {} results received after the pool was released", queued, received)));
+    }
+    // queued and not yet delivered = in the queue (<= queue size) or in the worker's batch (<= batch size), or on its way
+    let bound = s.cfg.queue + s.cfg.batch + 2;
+    if held > bound {
+        return Err(Violation::new("pool-holds-more-than-queue-and-batch", key, format!("a running pool with queue size {} and batch size {} held {} frames that were queued and whose results had not been delivered (bound {}) while {} frames were handed over and the results were collected as they came", s.cfg.queue, s.cfg.batch, held, bound, s.n)));
+    }
+    st.nontrivial = queued > 0;
+    Ok(())
+}
 
 #[derive(Clone, Debug, Default)]
 struct StallOut {
@@ -914,6 +1040,25 @@ struct StallOut {
     err: Option<String>,
 }
 
+impl C11Pool {
+    fn generate_sustained(r: &mut Rng, kind: PoolKind, queue: usize, batch: usize) -> StallScn {
+        let h = tcp::Host::random(r);
+        let cfg = PoolCfg { kind, workers: 1, queue, batch, timeout_ms: 10, cap: 64, with_db: false, filter: None };
+        let (c, sv) = (Endpoint::v4(10, 77, 1, 1, 40000), Endpoint::v4(10, 77, 0, 2, 443));
+        let seg = match kind {
+            PoolKind::Tls => {
+                let mut spec = crate::gen::tls::random_spec(r, 400);
+                spec.target_len = 0;
+                spec.coalesced_before = 0;
+                spec.exact_body = None;
+                tcp::data(&h, c, sv, 1001, 5001, crate::gen::tls::client_hello(r, &spec), 0, 0, pkt::ACK | pkt::PSH)
+            }
+            _ => tcp::syn(&h, c, sv, 1000, 0),
+        };
+        StallScn { cfg, frame: pkt::frame(&seg, Framing::Ethernet), n: 30 * (queue + batch) + r.urange(0, 200), schedule: r.next_u64(), sustained: true }
+    }
+}
+
 impl Prop for C11Pool {
     type Scn = StallScn;
     const ID: &'static str = "C11";
@@ -924,7 +1069,7 @@ impl Prop for C11Pool {
     }
 
     fn runs(tier: Tier) -> u64 {
-        tier.pick(24, 200)
+        tier.pick(40, 300)
     }
 
     fn run_wall_limit_s() -> u64 {
@@ -933,6 +1078,22 @@ impl Prop for C11Pool {
 
     fn panics_are_violations() -> bool {
         true
+    }
+
+    fn systematic(_tier: Tier) -> Vec<StallScn> {
+        // sustained load on every pool with small queues and odd batch sizes, six fixed schedules each
+        let mut out = vec![];
+        let mut r = Rng::new(0xC11_900);
+        for kind in PoolKind::ALL {
+            for (queue, batch) in [(4usize, 3usize), (16, 8)] {
+                for k in 0..6u64 {
+                    let mut s = Self::generate_sustained(&mut r, kind, queue, batch);
+                    s.schedule = 0x5eed_0000 + k * 7919 + queue as u64;
+                    out.push(s);
+                }
+            }
+        }
+        out
     }
 
     fn generate(r: &mut Rng, tier: Tier, _idx: u64) -> StallScn {
@@ -944,14 +1105,25 @@ impl Prop for C11Pool {
             3 => 65_536,
             _ => 65_537 + r.usize_below(tier.pick(2_000, 40_000)),
         };
+        let h = tcp::Host::random(r);
+        if r.chance(1, 2) {
+            // sustained load: every frame yields exactly one result (TCP: a SYN; TLS: a single-segment ClientHello of a
+            // flow of its own - the source port is rewritten per frame; HTTP: the pool answers every analysed frame)
+            let queue = *r.pick(&[2usize, 4, 16, 64]);
+            let batch = *r.pick(&[2usize, 3, 8, 32]);
+            let _ = h;
+            return Self::generate_sustained(r, kind, queue, batch);
+        }
         let cfg = PoolCfg { kind, workers: 1, queue, batch: *r.pick(&[1usize, 16, 64]), timeout_ms: 10, cap: 64, with_db: false, filter: None };
         // a frame that yields no result in the TLS pool and a cheap (empty) one in the others: a bare ACK
-        let h = tcp::Host::random(r);
         let seg = tcp::data(&h, Endpoint::v4(10, 77, 0, 1, 40000), Endpoint::v4(10, 77, 0, 2, 443), 1001, 5001, vec![], 0, 0, pkt::ACK);
-        StallScn { cfg, frame: pkt::frame(&seg, Framing::Ethernet), n: queue + r.urange(1, 300), schedule: r.next_u64() }
+        StallScn { cfg, frame: pkt::frame(&seg, Framing::Ethernet), n: queue + r.urange(1, 300), schedule: r.next_u64(), sustained: false }
     }
 
     fn run(s: &StallScn, st: &mut RunStats) -> Result<(), Violation> {
+        if s.sustained {
+            return run_sustained(s, st);
+        }
         let slot: Arc<std::sync::Mutex<StallOut>> = Arc::new(std::sync::Mutex::new(StallOut::default()));
         let (slot2, s2) = (slot.clone(), s.clone());
         pool::run_scheduled_steps(s.schedule, Sched::Random, 1, 60_000_000, move || {
